@@ -188,7 +188,9 @@ func kvTreeJobs(prop string, q bool, add func(kind, id string, w int, s map[stri
 	}
 	// high orders: a node holds up to m-1 keys, so the in-node search dominates the work; the
 	// tree is a single root until m keys are alive (one state per size under the rank abstraction)
-	for _, hm := range [][2]int{{32, pick(40, 70)}, {64, pick(70, 135)}, {128, pick(132, 260)}} {
+	// (the bound stays a few keys above the first split: beyond it the number of shapes grows
+	// quadratically with n and the deep replays make each one expensive)
+	for _, hm := range [][2]int{{32, pick(40, 48)}, {64, pick(70, 80)}, {128, pick(132, 144)}} {
 		id := fmt.Sprintf("btree%d.nat.n%d", hm[0], hm[1])
 		add("kv", id, hm[1]*hm[1], map[string]string{"c": "btree", "cmp": "nat"}, map[string]int{"m": hm[0], "n": hm[1], "rank": 1, "lite": 1})
 	}
